@@ -38,6 +38,7 @@ WORK = V.BUILD / "work" / CID
 BUDGET = 4000000
 MAX_CERT_IN_BITS = 7          # 3^7 input vectors per product state; wider designs: interpreter replay only
 KNOWN_CASE = "mux-undefined-selector-case-others"
+KNOWN_SHIFT = "shift-slv-context"
 
 
 # ---------------------------------------------------------------------------------------------
@@ -89,8 +90,8 @@ def gen_wide(seed, did):
 
 
 def gen_all(seed, tier):
-    ndes = 60 if tier == "quick" else 600
-    nwide = 8 if tier == "quick" else 60
+    ndes = 60 if tier == "quick" else 1500
+    nwide = 8 if tier == "quick" else 150
     designs = []
     for i in range(ndes):
         lines, used = G.gen_design(seed * 100003 + i, f"g{i}")
@@ -221,6 +222,8 @@ def main():
     forb = V.scan_forbidden()
     known, _ = V.known_findings(CID)
     known_case_listed = any(k.startswith(KNOWN_CASE) for k in known)
+    known_shift_listed = any(k.startswith(KNOWN_SHIFT) for k in known)
+    known_shift = []
 
     designs = load_corpus()
     replay_stim = None
@@ -405,6 +408,9 @@ def main():
         if reason is None or any(v.get("design") == did for v in violations):
             continue
         disagreements += 1
+        if ("shift_left on slv" in reason or "shift_right on slv" in reason) and known_shift_listed:
+            known_shift.append((did, mode, reason))
+            continue
         found = None
         if len([v for v in violations if v.get("searched")]) < 4:
             try:
@@ -525,6 +531,9 @@ def main():
             violations.insert(0, dict(kind="VHDL is less defined than the reference simulation: CASE .. WHEN OTHERS => X under an undefined mux selector",
                                       design=did, mode=mode, program=prog[did], stimulus=circ.stim_of(circ.parse_traces(WORK / ("run_" + mode) / f"{did}.trace")[m["trace"]]),
                                       failing=m, vhdl=excerpt(WORK / ("run_" + mode), did, "CASE")))
+    if known_shift:
+        rep.known(f"{KNOWN_SHIFT} ({len(known_shift)} exports this run, e.g. {known_shift[0][0]}: {known_shift[0][2][:160]})")
+    rep.cov["known_shift_slv_context_exports"] = len(known_shift)
     seen = 0
     for v in violations:
         if seen >= 6:
